@@ -31,6 +31,9 @@ type pStore struct {
 	fired   bool
 	// lazy faults: fail the record's Data()/ReadDirNames() evaluation instead of the store call
 	faultLazy bool
+	// ownCopy: the store keeps its own copy of a file's bytes, as a remote store does (Set copies in, Data
+	// copies out); the default shares the blob with the file system, like the in-memory store
+	ownCopy bool
 }
 
 func pNewStore() *pStore { return &pStore{faultAt: -1} }
@@ -87,6 +90,9 @@ func (s *pStore) Get(ctx context.Context, path string) (keyvalue.FileRecord, err
 			if s.lazyFault() {
 				return nil, pErrInjected
 			}
+			if s.ownCopy && r.data != nil {
+				return blob.NewBytes(append([]byte{}, r.data.Bytes()...)), nil
+			}
 			return r.data, nil
 		}
 	}
@@ -132,6 +138,9 @@ func (s *pStore) Set(ctx context.Context, path string, src keyvalue.FileRecord) 
 			return err
 		}
 		rec.data = data
+		if s.ownCopy && data != nil {
+			rec.data = blob.NewBytes(append([]byte{}, data.Bytes()...))
+		}
 	}
 	if i := s.find(path); i >= 0 {
 		s.vals[i] = rec
